@@ -17,12 +17,12 @@ theorem C15_unused_neutral (secs : List (String × List KV)) (vars vars' : List 
   simp [sectionKeys, currentCfg]
 
 /- FALSE: the hypothesis `h` is vacuous (it holds for every `secs`, see `assocGet_isSome_of_mem`) and does not exclude two
-   sections with the same name.  `sectionKeys` looks a section up by NAME (first match), `listItems` takes the VALUE from the
+   sections with the same name.  `sectionKeys` looks a section up by NAME (first match), `listSectionItems` takes the VALUE from the
    entry it is iterating, so for a repeated name the keys of the first entry are looked up in the second one and fall through
    to `[Variables]`.  Counterexample (checked below by `decide +kernel`):
      secs = [("A", [("k","1")]), ("A", [])],  vars = [("k","x")],  vars' = []
-     listItems currentCfg ⟨secs, vars⟩  = [("A","k","1"), ("A","k","x")]
-     listItems currentCfg ⟨secs, vars'⟩ = [("A","k","1"), ("A","k","")]
+     listSectionItems currentCfg ⟨secs, vars⟩  = [("A","k","1"), ("A","k","x")]
+     listSectionItems currentCfg ⟨secs, vars'⟩ = [("A","k","1"), ("A","k","")]
    (`readIni` never produces a repeated section name – `seenSecs` – so the counterexample is not reachable from a file.)
    Replacements: `C15_items_neutral_partial` (pairwise distinct section names; `h` is not needed) and the more general
    `C15_items_neutral_of_own_partial`.
@@ -30,15 +30,15 @@ theorem C15_unused_neutral (secs : List (String × List KV)) (vars vars' : List 
 /-- … and every item listed by --list-items is unchanged too -/
 theorem C15_items_neutral (secs : List (String × List KV)) (vars vars' : List KV)
     (h : ∀ p ∈ secs, ∀ k ∈ p.2.map (·.1), (assocGet p.2 k).isSome) :
-    listItems currentCfg ⟨secs, vars⟩ = listItems currentCfg ⟨secs, vars'⟩ := by
+    listSectionItems currentCfg ⟨secs, vars⟩ = listSectionItems currentCfg ⟨secs, vars'⟩ := by
   (no proof: the statement is false, see the counterexample below)
 -/
 
 /-- the counterexample to `C15_items_neutral` as stated: its hypothesis holds, its conclusion does not -/
 example :
     (∀ p ∈ [("A", [("k", "1")]), ("A", ([] : List KV))], ∀ k ∈ p.2.map (·.1), (assocGet p.2 k).isSome) ∧
-    listItems currentCfg ⟨[("A", [("k", "1")]), ("A", [])], [("k", "x")]⟩ ≠
-      listItems currentCfg ⟨[("A", [("k", "1")]), ("A", [])], []⟩ := by
+    listSectionItems currentCfg ⟨[("A", [("k", "1")]), ("A", [])], [("k", "x")]⟩ ≠
+      listSectionItems currentCfg ⟨[("A", [("k", "1")]), ("A", [])], []⟩ := by
   decide +kernel
 
 /-- a key of an association list is found in it (so the hypothesis `h` of `C15_items_neutral` always holds) -/
@@ -52,8 +52,8 @@ theorem assocGet_isSome_of_mem (l : List KV) (k : String) (hk : k ∈ l.map (·.
     entry itself -/
 theorem C15_items_neutral_of_own_partial (secs : List (String × List KV)) (vars vars' : List KV)
     (h : ∀ p ∈ secs, ∀ k ∈ sectionKeys currentCfg ⟨secs, []⟩ p.1, (assocGet p.2 k).isSome) :
-    listItems currentCfg ⟨secs, vars⟩ = listItems currentCfg ⟨secs, vars'⟩ := by
-  simp only [listItems, List.flatMap]
+    listSectionItems currentCfg ⟨secs, vars⟩ = listSectionItems currentCfg ⟨secs, vars'⟩ := by
+  simp only [listSectionItems, List.flatMap]
   congr 1
   apply List.map_congr_left
   intro p hp
@@ -85,7 +85,7 @@ theorem find?_of_pairwise (secs : List (String × List KV)) (hd : secs.Pairwise 
     guarantees); the hypothesis `h` of the original statement is redundant and dropped -/
 theorem C15_items_neutral_partial (secs : List (String × List KV)) (vars vars' : List KV)
     (hd : secs.Pairwise (fun a b => a.1 ≠ b.1)) :
-    listItems currentCfg ⟨secs, vars⟩ = listItems currentCfg ⟨secs, vars'⟩ := by
+    listSectionItems currentCfg ⟨secs, vars⟩ = listSectionItems currentCfg ⟨secs, vars'⟩ := by
   apply C15_items_neutral_of_own_partial
   intro p hp k hk
   simp only [sectionKeys, find?_of_pairwise secs hd p hp, currentCfg] at hk
